@@ -198,9 +198,9 @@ theorem readToks_line (lno : Nat) (ls : List Lexeme) : ∀ (off : Nat) (acc : Op
 
 /-! ## the result of `lexLine` in terms of a tiling -/
 
-theorem lexLine_ok {lno : Nat} {pending ln : String} {r : List Tok × String}
+theorem lexLine_ok {lno : Nat} {pending : Option String} {ln : String} {r : List Tok × Option String}
     (h : lexLine lno pending ln = .ok r) :
-    ∃ ls, Tiling ln.toList ls [] ∧ r = readToks lno 0 (pendingOf pending) ls := by
+    ∃ ls, Tiling ln.toList ls [] ∧ r = readToks lno 0 pending ls := by
   obtain ⟨rest, h1, h2, h3⟩ := tile_tiling ln.toList
   simp only [lexLine] at h
   rcases htile : tile ln.toList with ⟨ls, ok⟩
@@ -212,7 +212,7 @@ theorem lexLine_ok {lno : Nat} {pending ln : String} {r : List Tok × String}
     rw [h2 rfl] at h1
     exact ⟨ls, h1, h.symm⟩
 
-theorem lexLine_error {lno : Nat} {pending ln : String} {c : Nat}
+theorem lexLine_error {lno : Nat} {pending : Option String} {ln : String} {c : Nat}
     (h : lexLine lno pending ln = .error c) :
     ∃ ls rest, Tiling ln.toList ls rest ∧ rest ≠ [] ∧ select rest = none ∧
       c = 1 + byteLen (ls.flatMap (·.text)) := by
@@ -261,21 +261,21 @@ open Resynth Resynth.Lex Resynth.Spec
 
 /-! ## `Lex.line` results in terms of `lexLine` -/
 
-theorem line_error_iff (lno : Nat) (pending ln : String) (c : Nat) :
+theorem line_error_iff (lno : Nat) (pending : Option String) (ln : String) (c : Nat) :
     Lex.line lno pending ln = .error c ↔ lexLine lno pending ln = .error c := by
   rw [← line_eq_spec]
   cases Lex.line lno pending ln with
   | error e => simp [Except.map]
   | ok o => simp [Except.map]
 
-theorem line_endCol {lno : Nat} {pending ln : String} {out : LineOut}
+theorem line_endCol {lno : Nat} {pending : Option String} {ln : String} {out : LineOut}
     (h : Lex.line lno pending ln = .ok out) : out.endCol = byteLen ln.toList + 1 := by
   simp only [Lex.line] at h
   split at h
   · cases h
   · cases h; simp [utf8Len_eq]
 
-theorem line_ok_iff (lno : Nat) (pending ln : String) (out : LineOut) :
+theorem line_ok_iff (lno : Nat) (pending : Option String) (ln : String) (out : LineOut) :
     Lex.line lno pending ln = .ok out ↔
       lexLine lno pending ln = .ok (out.toks, out.pending) ∧ out.endCol = byteLen ln.toList + 1 := by
   constructor
